@@ -131,3 +131,15 @@ CASES += [
     {"name": "owning copy of a leading part only", "kind": "mutant", "rule": "C11-M", "edits": [
         (_CFM11, "            self.data[iof,:] = fce.data\n", "            self.data[iof,:ic+1] = fce.data[:ic+1].copy()\n", 1)]},
 ]
+
+_MA9 = "quantarhei/spectroscopy/mockabscalculator.py"
+_MA9_OLD = "        self.TimeAxis.atype = atype\n        \n        self.tc = 0\n"
+CASES += [
+    {"name": "the mock calculator returns early for supplied pathways, before the type of the time axis is written back (seeded change of round 9)",
+     "kind": "mutant", "rule": "C11-P", "edits": [(_MA9, _MA9_OLD,
+        "        \n        self.tc = 0\n        if pathways is not None:\n            return\n        self.TimeAxis.atype = atype\n", 1)]},
+    {"name": "the type of the time axis is not written back at all", "kind": "mutant", "rule": "C11-P", "edits": [(_MA9, _MA9_OLD,
+        "        \n        self.tc = 0\n", 1)]},
+    {"name": "the early return for supplied pathways comes after the type of the time axis was written back", "kind": "twin", "edits": [(_MA9, _MA9_OLD,
+        "        self.TimeAxis.atype = atype\n        \n        self.tc = 0\n        if pathways is not None and lab is not None and False:\n            return\n", 1)]},
+]
